@@ -23,10 +23,10 @@ seeds = "\n".join(srows)
 metas = [json.load(open(os.path.join(d, 'meta.json'))) for d in sorted(glob.glob(os.path.join(R, 'seeded', 'C*')))]
 n_all = len(metas); n_str = len([m for m in metas if m.get('strengthening')]); n_r1 = len([m for m in metas if m.get('round', 1) == 1]); n_r2 = n_all - n_r1
 seedsummary = f"{n_all} seeded changes in two rounds ({n_r1} + {n_r2}): {n_all - n_str} were reported by the checks as they stood when the change arrived, {n_str} were not and led to strengthened checks; all are reported now (last column)."
-tail = rd('05_tail.md').replace('@@TABLE@@', table).replace('@@FIXES@@', fixes).replace('@@FIXED@@', fixed).replace('@@KNOWN@@', known).replace('@@SEEDS@@', seeds).replace('@@SEEDSUMMARY@@', seedsummary)
+tail = rd('05_tail.md').replace('@@TABLE@@', table).replace('@@FIXES@@', fixes).replace('@@FIXED@@', fixed).replace('@@KNOWN@@', known).replace('@@SEEDS@@', seeds).replace('@@SEEDSUMMARY@@', seedsummary.replace(' (last column)', ''))
 nfix = len([l for l in log if l.split(' ',1)[1].startswith('fix:')])
 nfixed = len([f for f in k if f['status'] == 'fixed'])
-head = rd('00_head.md').replace('@@NFIX@@', str(nfix)).replace('@@NFIXED@@', str(nfixed)).replace('@@SEEDSUMMARY@@', seedsummary)
+head = rd('00_head.md').replace('@@NFIX@@', str(nfix)).replace('@@NFIXED@@', str(nfixed)).replace('@@SEEDSUMMARY@@', seedsummary.replace(' (last column)', ''))
 out = head + (rd('01_sut.md').split('\n',1)[1] if rd('01_sut.md').startswith('## 1.') else rd('01_sut.md'))
 out += rd('02_engines.md') + rd('04_properties.md') + tail + rd('99_appendix.md')
 open(os.path.join(R, 'DESIGN.md'), 'w').write(out)
